@@ -35,7 +35,7 @@ func c22History(r *rand.Rand, tier string, i int) []string {
 		header, handles = strings.Fields("mem f z"), []string{"0", "0", "1", "2"}
 	}
 	c := kvh.GenCfg{Header: header, Handles: handles, NOps: 10 + r.Intn(50), Live: r.Intn(4) == 0,
-		BigValues: r.Intn(10) == 0, SweepPairs: 10}
+		BigValues: r.Intn(10) == 0, SweepPairs: 10, Reopen: header[0] != "mem" && r.Intn(4) == 0}
 	out := kvh.Gen(r, c)
 	if tier == "thorough" && i%20 == 0 {
 		// every (prefix, start) over the alphabet up to length 2 (and nil), on the flushable
